@@ -4842,6 +4842,9 @@ class PyCdlib:
                                      self.logical_block_size, True, False,
                                      self.xa, file_mode, time.time())
                 num_bytes_to_add += self._add_child_to_dr(fake_dir_rec)
+                # A long Rock Ridge name puts part of this record's entries in
+                # a continuation area, which needs a place like any other.
+                num_bytes_to_add += self._update_rr_ce_entry(fake_dir_rec)
 
                 # The fake dir record doesn't get an entry in the path table
                 # record.
